@@ -8,6 +8,9 @@
 #include "../../../src/crash.h"
 #include "../../../src/operand.h"
 
+#ifdef TEAKRA_VERIF
+struct TeakraVerifAccess; // verification hook: read/seed private state
+#endif
 namespace Teakra {
 
 struct RegisterState {
@@ -169,6 +172,9 @@ struct RegisterState {
 
     template <u16 RegisterState::* origin>
     class ShadowRegister {
+#ifdef TEAKRA_VERIF
+        friend struct ::TeakraVerifAccess;
+#endif
     public:
         void Store(RegisterState* self) {
             shadow = self->*origin;
@@ -183,6 +189,9 @@ struct RegisterState {
 
     template <std::size_t size, std::array<u16, size> RegisterState::* origin>
     class ShadowArrayRegister {
+#ifdef TEAKRA_VERIF
+        friend struct ::TeakraVerifAccess;
+#endif
     public:
         void Store(RegisterState* self) {
             shadow = self->*origin;
@@ -197,6 +206,9 @@ struct RegisterState {
 
     template <typename... ShadowRegisters>
     class ShadowRegisterList : private ShadowRegisters... {
+#ifdef TEAKRA_VERIF
+        friend struct ::TeakraVerifAccess;
+#endif
     public:
         void Store(RegisterState* self) {
             (ShadowRegisters::Store(self), ...);
@@ -208,6 +220,9 @@ struct RegisterState {
 
     template <u16 RegisterState::* origin>
     class ShadowSwapRegister {
+#ifdef TEAKRA_VERIF
+        friend struct ::TeakraVerifAccess;
+#endif
     public:
         void Swap(RegisterState* self) {
             std::swap(self->*origin, shadow);
@@ -219,6 +234,9 @@ struct RegisterState {
 
     template <std::size_t size, std::array<u16, size> RegisterState::* origin>
     class ShadowSwapArrayRegister {
+#ifdef TEAKRA_VERIF
+        friend struct ::TeakraVerifAccess;
+#endif
     public:
         void Swap(RegisterState* self) {
             std::swap(self->*origin, shadow);
@@ -230,6 +248,9 @@ struct RegisterState {
 
     template <typename... ShadowSwapRegisters>
     class ShadowSwapRegisterList : private ShadowSwapRegisters... {
+#ifdef TEAKRA_VERIF
+        friend struct ::TeakraVerifAccess;
+#endif
     public:
         void Swap(RegisterState* self) {
             (ShadowSwapRegisters::Swap(self), ...);
@@ -273,6 +294,9 @@ struct RegisterState {
 
     template <unsigned index>
     class ShadowSwapAr {
+#ifdef TEAKRA_VERIF
+        friend struct ::TeakraVerifAccess;
+#endif
     public:
         void Swap(RegisterState* self) {
             std::swap(self->arrn[index * 2], rni);
@@ -289,6 +313,9 @@ struct RegisterState {
 
     template <unsigned index>
     class ShadowSwapArp {
+#ifdef TEAKRA_VERIF
+        friend struct ::TeakraVerifAccess;
+#endif
     public:
         void Swap(RegisterState* self) {
             std::swap(self->arprni[index], rni);
